@@ -858,6 +858,33 @@ func c06Streams(r *core.Report) {
 			})
 		}
 	})
+	r.RunRule("C06.parts", "multipart parts are read decoded: the body decoders obtain parts with (*multipart.Reader).NextPart, which undoes a quoted-printable Content-Transfer-Encoding, never with NextRawPart, which hands the encoded bytes to the part's decoder and to validation", 1, func() {
+		k := 0
+		for _, d := range p.AllDecls("openapi3filter") {
+			if d.Body == nil {
+				continue
+			}
+			ast.Inspect(d.Body, func(nd ast.Node) bool {
+				c, ok := nd.(*ast.CallExpr)
+				if !ok {
+					return true
+				}
+				f := core.CalleeOf(info, c)
+				if f == nil {
+					return true
+				}
+				switch f.FullName() {
+				case "(*mime/multipart.Reader).NextPart":
+					k++
+					r.OK(fmt.Sprintf("parts:%s#%d", core.FuncName(d), k), p.Pos(c.Pos()), "NextPart")
+				case "(*mime/multipart.Reader).NextRawPart":
+					k++
+					r.Bad(fmt.Sprintf("parts:%s#%d", core.FuncName(d), k), p.Pos(c.Pos()), "NextRawPart does not decode `Content-Transfer-Encoding: quoted-printable`: the part's decoder and the schema see `caf=C3=A9` where the client sent `café`")
+				}
+				return true
+			})
+		}
+	})
 	r.RunRule("C06.single", "a JSON body is exactly one JSON value: every function of openapi3filter that decodes a body with a json.Decoder (`dec.Decode(&v)`) asks the same decoder for what follows (`dec.Token()` / `dec.More()` / `dec.Buffered()`) before it returns the value — trailing bytes after the first value are an error, not ignored input", 1, func() {
 		k := 0
 		for _, d := range p.AllDecls("openapi3filter") {
